@@ -262,6 +262,11 @@ func ruleR20b(c *Ctx, r *Report) {
 			fname := fieldVar(fa.X.Type(), fa.Field).Name()
 			pi, tracked := want[fname]
 			if !tracked {
+				// the zero value written explicitly (a shared constructor called with "" / nil for
+				// the destination this constructor does not have) sets nothing
+				if k, isK := canon(st.Val).(*ssa.Const); isK && (k.Value == nil || k.Value.ExactString() == `""` || k.Value.ExactString() == "0" || k.Value.ExactString() == "false") {
+					return
+				}
 				bad = "constructor sets field " + fname
 				return
 			}
